@@ -61,7 +61,7 @@ TOL_T = 1e-10
 RIGID_SCALE = {'cheap': 2e-1, 'medium': 3e-2, 'expensive': 5e-3}
 KINDS = ('cheap', 'medium', 'expensive')
 LEN_UNITS = ('mm', 'cm', 'm')
-NEAR_AXIS = 1e-3        # angle to the axis direction below which the known cancellation acts
+NEAR_AXIS = 1.0 / 64    # the axial-offset leak eps |b.a| / tilt can exceed 64 eps (|p-b|+r+h) only below this angle
 BIG_JUDGE_EVERY = 40    # in-situ beam_intersection calls judged inside the >2e7 case
 
 
@@ -853,7 +853,7 @@ def _tilt(g, d):
 
 
 def _beam_tilt_class(g, beam):
-    """True when the beam is within NEAR_AXIS rad of the axis direction but not exactly
+    """True when the beam is within NEAR_AXIS (1/64) rad of the axis direction but not exactly
     (bitwise) parallel to it."""
     exact = bool(np.all(beam == g.axis) or np.all(beam == -g.axis))
     return bool(_tilt(g, beam) <= NEAR_AXIS and not exact)
@@ -1450,23 +1450,33 @@ def _solid_descr(s):
 
 
 # -------------------------------------------------------------- known findings ---
-_ROTATION_KINDS = {'quad_node_outside', 'quad_rigid_image', 'quad_first_moment',
-                   'transmission_rigid_motion', 'transmission_other_end'}
+_ROTATION_KINDS = {'quad_node_outside', 'quad_rigid_image', 'transmission_rigid_motion',
+                   'transmission_other_end'}
 
 
 def _rotation_negative_z(v):
+    """asin(|z x a|) is the wrong angle: axis with negative z-component and a rotation applied."""
     k = v.get('keys') or {}
     return (v.get('kind') in _ROTATION_KINDS and k.get('axis_z_negative') is True
             and k.get('rotation_applied') is True)
 
 
+def _band_exponent(k):
+    b = k.get('excess_band') or k.get('mismatch_band')
+    try:
+        return int(str(b)[2:])
+    except (TypeError, ValueError):
+        return None
+
+
 def _rotation_near_equator(v):
+    """asin is ill-conditioned at 1: axis within 1e-3 of the xy-plane (z >= 0), nodes displaced
+    by at most ~sqrt(eps) (r + h)."""
     k = v.get('keys') or {}
+    e = _band_exponent(k)
     return (v.get('kind') in {'quad_node_outside', 'quad_rigid_image'}
             and k.get('axis_near_equator') is True and k.get('rotation_applied') is True
-            and k.get('axis_z_negative') is False
-            and (k.get('excess_band') or k.get('mismatch_band') or 'none') not in
-            ('none', 'shape', 'inf') and int(str(k.get('excess_band') or k.get('mismatch_band'))[2:]) <= -8)
+            and k.get('axis_z_negative') is False and e is not None and e <= -8)
 
 
 def _near_axis_ray(v):
